@@ -29,7 +29,11 @@ func (a *SparseFloat32Vector) Equals(b ConstVector, epsilon float64) bool {
   for it := a.JOINT_ITERATOR(b); it.Ok(); it.Next() {
     s1, s2 := it.GET()
     if s1.ptr == nil {
-      return false
+      // no entry in a, i.e. compare with zero
+      if !s2.Equals(ConstFloat32(0.0), epsilon) {
+        return false
+      }
+      continue
     }
     if !s1.Equals(s2, epsilon) {
       return false
